@@ -120,6 +120,14 @@ def build(kind, shape, atoms):
         return None
     if s == 'empty-list':
         return []
+    if s == 'long':
+        import numpy as np
+        n = shape['n']
+        if kind == 'listnpy':   # (stored as files 0.npy ... <n-1>.npy: every order of the names but the numeric one is wrong)
+            return [np.full((i % 3 + 1,), i, dtype=('int64', 'float32', 'uint16')[i % 3]) for i in range(n)]
+        if kind == 'generated':
+            return [{'i': i} if i % 2 else [i] for i in range(n)]
+        return {'l': list(range(n)), 'm': {f'k{i}': i for i in range(n)}}
     if s == 'list1':
         return [at(shape['x'])]
     if s == 'pair':
